@@ -87,6 +87,27 @@ def run(ctx):
                     ctx.violation('configuration %s (with_comments=%s) disagrees with the generated-module parser' % (cfg, wc),
                                   dict(text=text, config=cfg, with_comments=wc, cached=base, other=r))
                     return
+    # rarely used constructor options must not couple parser objects of the cached configurations: a parser built with
+    # its own asttypes factory, then another default parser, then parse with the first
+    from calmjs.parse.factory import AstTypesFactory
+    from calmjs.parse.unparsers.es5 import minify_print
+    from calmjs.parse.walkers import ReprWalker
+    custom = AstTypesFactory(minify_print, ReprWalker())
+    probe = 'var a = 1 + 2;  function f ( x ) { return x ; }'
+    outs = {}
+    for cfg in ('cached', 'fresh'):
+        kw = dict(lex_optimize=False, yacc_optimize=False) if cfg == 'fresh' else {}
+        p1 = es5.Parser(asttypes=custom, **kw)
+        p2 = es5.Parser(**kw)
+        t1 = p1.parse(probe)
+        t2 = p2.parse(probe)
+        p3 = es5.Parser(asttypes=custom, **kw)
+        outs[cfg] = (str(t1), str(t2), str(p3.parse(probe)), str(p2.parse(probe)))
+        ctx.case(('asttypes-option', cfg), nontrivial=True)
+    if outs['cached'] != outs['fresh']:
+        ctx.violation('parsers built with a custom asttypes factory behave differently under the generated-module tables',
+                      dict(text=probe, cached=outs['cached'], fresh=outs['fresh']))
+        return
     ctx.sample(dict(text=texts[0][:200], configs=['cached', 'fresh', 'reopt'], result=result_of(es5.Parser(), texts[0])[0]))
     ctx.bump('texts', len(texts))
     ctx.obligation('tie:S2 three configurations give identical trees/errors', True, 'tie', '%d parses compared' % n)
